@@ -1315,10 +1315,12 @@ static void CodeALIGN(Word Index) {
                     if (CodeLen) {
                         BookKeeping();
                     }
-                } else if (CodeLen > (LongInt)MaxCodeLen) {
+                } else if (SetMaxCodeLen((LongWord)CodeLen * Granularity())) {
+                    /* CodeLen counts addressable units, the buffer bytes */
+                    CodeLen = 0;
                     WrError(ErrNum_CodeOverflow);
                 } else {
-                    memset(BAsmCode, AlignFill, CodeLen);
+                    memset(BAsmCode, AlignFill, (size_t)CodeLen * Granularity());
                     DontPrint = False;
                 }
             }
